@@ -24,7 +24,7 @@ static bool segHitsBox(double ax, double ay, double bx, double by, BoundingBox b
     return true;
 }
 struct Cfg { int start; int sizes; bool aca, nearAlign; int aspect; int heap; int optset = 0; };   // optset: non-default HolaOpts (1 tree growth EAST + non-convex trees, 2 tree placement preferences off, 3 expansion/hub options flipped, 4 padding 0.5 + no ULC-at-origin + other tree routing)
-static string cfg_str(const Cfg &c) { return mcx::fmt("start=%s sizes=%s useACAforLinks=%d do_near_align=%d aspect=%d heap=%d", c.start == 0 ? "circle" : c.start == 1 ? "coincident" : "line", c.sizes ? "mixed" : "30x30", c.aca, c.nearAlign, c.aspect, c.heap) + (c.optset ? mcx::fmt(" optset=%d", c.optset) : std::string()); }
+static string cfg_str(const Cfg &c) { return mcx::fmt("start=%s sizes=%s useACAforLinks=%d do_near_align=%d aspect=%d heap=%d", c.start == 0 ? "circle" : c.start == 1 ? "coincident" : "line", c.sizes == 0 ? "30x30" : c.sizes == 1 ? "mixed" : c.sizes == 2 ? "nodes1,2=300x20" : "nodes1,2=20x300", c.aca, c.nearAlign, c.aspect, c.heap) + (c.optset ? mcx::fmt(" optset=%d", c.optset) : std::string()); }
 static string gstr(int n, const EL &es) { string s = mcx::fmt("n=%d edges:", n); for (auto &e : es) s += mcx::fmt(" %d-%d", e.first, e.second); return s; }
 
 static void run_one(int n, const EL &es, const Cfg &c) {
@@ -32,7 +32,9 @@ static void run_one(int n, const EL &es, const Cfg &c) {
     ostringstream t; vector<pair<double, double>> dims;
     for (int i = 0; i < n; i++) {
         double x, y; if (c.start == 0) { double a = 2 * M_PI * i / n; x = 100 + 80 * cos(a); y = 100 + 80 * sin(a); } else if (c.start == 1) { x = 100; y = 100; } else { x = 60 * i; y = 0; }
-        double w = 30, h = 30; if (c.sizes) { w = (i % 2) ? 60 : 30; h = (i % 3 == 0) ? 20 : 40; }
+        double w = 30, h = 30; if (c.sizes == 1) { w = (i % 2) ? 60 : 30; h = (i % 3 == 0) ? 20 : 40; }
+        if (c.sizes == 2 && (i == 1 || i == 2)) { w = 300; h = 20; }   // two nodes far wider than the ideal edge length (twice the average node dimension)
+        if (c.sizes == 3 && (i == 1 || i == 2)) { w = 20; h = 300; }   // ... far taller
         dims.push_back({w, h}); t << i << " " << x << " " << y << " " << w << " " << h << "\n";
     }
     t << "#\n"; for (auto &e : es) t << e.first << " " << e.second << "\n"; string s = t.str();
@@ -96,6 +98,7 @@ static void run_one(int n, const EL &es, const Cfg &c) {
     vector<string> kc; if (c.aspect != 2 && c.sizes) kc.push_back("aspect_rotation_nonsquare");
     if (c.optset == 4 && (int)es.size() == n - 1) kc.push_back("strict_tree_routing_with_node_padding_half");   // a pure tree laid out with wholeTreeRouting=STRICT and nodePaddingScalar=0.5
     if (c.start == 2 && n >= 5) kc.push_back("collinear_start");
+    if (c.sizes == 3 && (int)es.size() == n - 1 && c.optset == 0) kc.push_back("tree_with_nodes_longer_than_the_rank_separation");   // a pure tree (default growth direction: vertical) with nodes 300 tall
     if (sepViol > 0 && sepViol == sepViolBentEdgeAlign) kc.push_back("alignment_of_an_edge_that_is_routed_with_bends");   // every node centre initially on one line (degenerate for the stress layout)
     if (!why.empty()) ctx.violation(why, kc, desc, obs);
 }
@@ -150,6 +153,7 @@ int main(int argc, char **argv) {
     vector<Cfg> mid; for (int st = 0; st < 3; st++) for (int sz = 0; sz < 2; sz++) for (int aca = 0; aca < 2; aca++) mid.push_back({st, sz, (bool)aca, true, st, 0});
     phase(2, full, "all"); phase(3, full, "all"); phase(4, full, "all");
     phase(5, links, "link mode x near-align, circle start");
+    { vector<Cfg> wide; for (int sz = 2; sz <= 3; sz++) for (int aca = 0; aca < 2; aca++) wide.push_back({0, sz, (bool)aca, true, 2, 0}); phase(3, wide, "two very wide / very tall nodes, no aspect preference"); phase(4, wide, "two very wide / very tall nodes, no aspect preference"); phase(5, wide, "two very wide / very tall nodes, no aspect preference"); }
     { vector<Cfg> ct; for (int aca = 0; aca < 2; aca++) for (int as = 0; as < 3; as++) ct.push_back({0, 0, (bool)aca, true, as, 0}); phase_core_trees(T ? 5 : 4, ct);
       { vector<Cfg> co; for (int o = 1; o <= 4; o++) { Cfg c{0, 0, true, true, 0, 0}; c.optset = o; co.push_back(c); Cfg d{0, 1, false, true, 1, 0}; d.optset = o; if (T) co.push_back(d); } phase_core_trees(T ? 4 : 3, co); phase(4, co, "non-default option sets"); if (T) phase(5, co, "non-default option sets"); }
       vector<Cfg> c2 = {{0, 0, true, true, 0, 0}, {0, 0, false, true, 0, 0}}; phase_leafless_cores(4, 2, ct); phase_leafless_cores(5, 1, c2); if (T) phase_leafless_cores(5, 2, c2); }
